@@ -25,6 +25,32 @@ impl ContentCollector {
         }
     }
 
+    /// (kind: 0 none / 1 delivery / 2 return / 3 get, awaiting body?, buffered, announced)
+    #[cfg(amiquip_verif)]
+    pub(super) fn verif_fingerprint(&self) -> (u8, bool, usize, u64) {
+        fn st<T: ContentType>(s: &State<T>) -> (bool, usize, u64) {
+            match s {
+                State::Start(_) => (false, 0, 0),
+                State::Body(_, header, buf) => (true, buf.len(), header.body_size),
+            }
+        }
+        match &self.kind {
+            None => (0, false, 0, 0),
+            Some(Kind::Delivery(s)) => {
+                let (b, n, a) = st(s);
+                (1, b, n, a)
+            }
+            Some(Kind::Return(s)) => {
+                let (b, n, a) = st(s);
+                (2, b, n, a)
+            }
+            Some(Kind::Get(s)) => {
+                let (b, n, a) = st(s);
+                (3, b, n, a)
+            }
+        }
+    }
+
     pub(super) fn collect_deliver(&mut self, deliver: Deliver) -> Result<()> {
         match self.kind.take() {
             None => {
